@@ -334,8 +334,12 @@ class _Rename(ast.NodeTransformer):
         return node
 
 
+_touched_modules: set = set()
+
+
 def _expand(idx: PyIndex, fi: FuncInfo, call: ast.Call, h: FuncInfo, at: ast.AST):
     """(statements, return expression or None) of helper h applied to the arguments of `call`."""
+    _touched_modules.add(h.module)
     hn = copy.deepcopy(h.node)
     k = next(_n)
     params = [a.arg for a in hn.args.args]
@@ -515,6 +519,7 @@ def inline_function(idx: PyIndex, fi: FuncInfo, depth: int = 2, keep=None, types
     fn = copy.deepcopy(fi.node)
     if not isinstance(fn, ast.FunctionDef):
         return fn
+    _touched_modules.clear()
     exact = dict(types or {})
     if exact:
         folded0 = _Fold(idx, exact).visit(fn)
@@ -697,15 +702,28 @@ def inline_function(idx: PyIndex, fi: FuncInfo, depth: int = 2, keep=None, types
     fn._inlined_any = changed_any
     if changed_any:
         # idioms that only appear once the helper body stands in place (a loop over the one-element tuple that was an argument, a flag now tested next to its definition)
-        from .normalise import desugar
+        from .normalise import desugar, _literal_table
         try:
-            m = desugar(ast.Module(body=[fn], type_ignores=[]))
-            if len(m.body) == 1 and isinstance(m.body[0], ast.FunctionDef):
-                fn = Canon().visit(m.body[0])
+            # the literal tables of the modules the code came from (its own module and the helpers' modules) are in scope for the desugaring
+            pre: List[ast.stmt] = []
+            seen_t = set()
+            for mod_ in [idx.modules.get(fi.module)] + [idx.modules.get(mn) for mn in sorted(_touched_modules)]:
+                if mod_ is None:
+                    continue
+                for st0 in mod_.tree.body:
+                    tgt0 = st0.targets[0] if isinstance(st0, ast.Assign) and len(st0.targets) == 1 else (st0.target if isinstance(st0, ast.AnnAssign) else None)
+                    val0 = getattr(st0, 'value', None)
+                    if isinstance(tgt0, ast.Name) and val0 is not None and tgt0.id not in seen_t and _literal_table(val0) is not None:
+                        seen_t.add(tgt0.id)
+                        pre.append(ast.Assign(targets=[ast.Name(id=tgt0.id, ctx=ast.Store())], value=copy.deepcopy(val0), lineno=1, col_offset=0))
+            m = desugar(ast.Module(body=pre + [fn], type_ignores=[]))
+            if m.body and isinstance(m.body[-1], ast.FunctionDef):
+                fn = Canon().visit(m.body[-1])
                 if exact and any(isinstance(x, (ast.If, ast.IfExp)) for x in ast.walk(fn)):
                     folded2 = _Fold(idx, exact).visit(fn)          # dispatch tables unrolled by the desugaring: their tests are decided by the given types
                     if isinstance(folded2, ast.FunctionDef) and folded2.body:
                         fn = folded2
+                    fn = _const_locals(fn)
                 ast.fix_missing_locations(fn)
                 fn._inlined_any = True
         except RecursionError:      # pragma: no cover
@@ -757,6 +775,26 @@ def inline_fragments(idx: PyIndex, fi: FuncInfo, keep=None, depth: int = 2) -> F
     fn = Canon().visit(fn)
     ast.fix_missing_locations(fn)
     return FuncInfo(fi.module, fi.qualname, fn, fi.cls, fi.kind)
+
+
+def _const_locals(fn: ast.FunctionDef) -> ast.FunctionDef:
+    """A local bound exactly once, at the top level of the function body, to a string constant is read as that constant afterwards (`name = 'add_table'` ...
+    `getattr(self, name)` -> `self.add_table`)."""
+    stores: Dict[str, int] = {}
+    for x in ast.walk(fn):
+        if isinstance(x, ast.Name) and isinstance(x.ctx, (ast.Store, ast.Del)):
+            stores[x.id] = stores.get(x.id, 0) + 1
+    consts: Dict[str, ast.AST] = {}
+    for st in fn.body:
+        if isinstance(st, ast.Assign) and len(st.targets) == 1 and isinstance(st.targets[0], ast.Name) and isinstance(st.value, ast.Constant) \
+                and isinstance(st.value.value, str) and stores.get(st.targets[0].id) == 1:
+            consts[st.targets[0].id] = st.value
+    if not consts:
+        return fn
+    from .normalise import _Subst
+    out = _Subst(consts).visit(fn)
+    ast.fix_missing_locations(out)
+    return out
 
 
 class _HoistIfExp(ast.NodeTransformer):
